@@ -104,6 +104,13 @@ func (g *Gateway) extractHostname(host string) (hostname string, err error) {
 		err = fmt.Errorf("gateway: invalid hostname for forwarding")
 		return
 	}
+	// DNS names are case-insensitive: match the root domain regardless of letter case
+	for _, root := range g.RootDomains {
+		if strings.EqualFold(root, parts[1]) {
+			parts[1] = root
+			break
+		}
+	}
 	if slices.Contains(g.RootDomains, parts[1]) {
 		hostname = parts[0]
 	} else {
